@@ -268,7 +268,42 @@ func c09Ctx(partials map[string]string) *plush.Context {
 	return ctx
 }
 
+// c09Values: a name bound inside a construct must leave the same-named outer variable
+// unchanged also when both values were made from one array with '+': the inner value
+// must not share storage with the outer one.
+func c09Values(b *core.B) {
+	cases := []struct{ t, want string }{
+		{`<% let a = [1, 2, 3] %><% let b = a + 4 %><% let f = fn() { let b = a + 5
+ return b } %><%= f() %>|<%= b %>|<%= a %>`, "1235|1234|123"},
+		{`<% let a = [1, 2, 3] %><% let b = a + 4 %><%= for (x) in [7] { %><% let b = a + x %><%= b %><% } %>|<%= b %>`, "1237|1234"},
+		{`<% let b = spare + "y" %><%= withCtx({q: 1}) { %><% let b = spare + "z" %><%= b %><% } %>|<%= b %>|<%= len(spare) %>`, "abz|aby|2"},
+		{`<% let a = [1] %><% let b = a + 2 %><% let c = b + 3 %><% let d = b + 4 %><%= c %>|<%= d %>|<%= b %>`, "123|124|12"},
+		{`<% let acc = [] %><%= for (x) in [1, 2, 3] { %><% let mine = acc + x %><% let other = acc + 0 %><%= mine %>,<% } %>`, "1,2,3,"},
+	}
+	for _, c := range cases {
+		if !b.Begin("values made with + : " + c.t) {
+			continue
+		}
+		ctx := c09Ctx(map[string]string{})
+		spare := make([]interface{}, 2, 8)
+		spare[0], spare[1] = "a", "b"
+		ctx.Set("spare", spare)
+		res := render(b, c.t, ctx)
+		b.NonTrivialStr(c.t)
+		b.Count("arrays-made-with-plus-do-not-share-storage")
+		if res.Pan != nil {
+			continue
+		}
+		if res.Err != nil || res.Out != c.want {
+			b.Violate("scope-violation|outer-value-changed|array-plus", fmt.Sprintf("want %q, got %s", c.want, res))
+		}
+	}
+}
+
 func c09Run(b *core.B) {
+	if b.Batch == 0 {
+		c09Values(b)
+	}
 	r := b.Rng(1)
 	shapes := [][]string{}
 	for _, a := range c09Kinds {
